@@ -630,6 +630,12 @@ def check_cocl(P, R, tu):
         if rem is None or rem.get("k") != "BinaryOperator" or rem.get("op") != "%":
             raise AnalysisBroken("%s: %s: the remainder is not a %% expression" % (rule, name))
         xv, dv = _u(rem["c"][0]), _u(rem["c"][1])
+        if xv is not None and xv.get("k") == "BinaryOperator" and xv.get("op") == "+" and dv is not None:
+            # the remainder counted from the multiple below, for values of either sign: ((x % d) + d) % d
+            a_, b_ = _u(xv["c"][0]), _u(xv["c"][1])
+            if a_ is not None and a_.get("k") == "BinaryOperator" and a_.get("op") == "%" and b_ is not None \
+                    and expr_text(b_) == expr_text(dv) and expr_text(_u(a_["c"][1])) == expr_text(dv):
+                xv = _u(a_["c"][0])
         # the value being rounded: the first parameter (epoch seconds) or the local packed from hours, minutes and seconds
         if name == "sxround_dur_cocl":
             xd = fn.params[0]["d"]
